@@ -13,16 +13,18 @@ GT = 'Trusted: Coq kernel + vm_compute, the hand-written heap model of task.py/w
 # property -> (technique, level text, level note, design_ref)
 CHECKS = {
     'C17': (
-        'Coq proof of the calendar/search model for every number type + bit-exact differential correspondence (PrimFloat) with the implementation',
+        'Coq proof of the calendar/search model for every number type + the method bodies of calendar.py/resource.py translated from the source text on every run and proved equal to the model (gen/SrcCal.v, C17_src_*) + bit-exact differential correspondence (PrimFloat) with the implementation',
         'Theorems (Props_C17.v, closed under the global context) state the meaning of every combinator, leaf calendar, '
         'constructor validation and of the availability search for all expressions, dates, horizons and any number type; '
         'the hand-written model is tied to /repo on every run by evaluating it (vm_compute, IEEE binary64) on generated '
-        'expressions and comparing every returned value bit for bit with the implementation.',
-        'Trusted: Coq kernel + vm_compute, the hand-written model, the harness (generator, term printer). FuncCalendar '
-        'and user subclasses are outside the model. The tie is differential testing, the theorems are about the model.',
+        'expressions and comparing every returned value bit for bit with the implementation; and, for the 11 lookup/search method bodies, '
+        'by translating their current source text to Gallina (harness/srcgen) and proving the result equal to the model for all inputs.',
+        'Trusted: Coq kernel + vm_compute, the hand-written model, the harness (generator, term printer), the source translator '
+        'harness/srcgen/pylite.py with the conventions listed in DESIGN section 5. FuncCalendar and user subclasses are outside the model. '
+        'For constructors, operator overloads and set_units the tie is differential testing; the theorems are about the model.',
         '4.17'),
     'C03': (
-        'Coq proof of the ledger invariant for both scheduler models (abstract step machine refined by the recursive pass) + verified boolean oracle evaluated on the rows returned by the implementation',
+        'Coq proof of the ledger invariant for both scheduler models (abstract step machine refined by the recursive pass) + verified boolean oracle evaluated on the rows returned by the implementation + _ResourceUsage.reserved translated from the source text on every run and proved equal to the model\'s booked/used (gen/SrcSched.v, C03_src_reserved_*)',
         'Theorems (Props_C03.v): for every WBS, capacity function >= 0, balance setting, bound and clock, every row of the '
         'forward/backward model schedule is a positive amount on its task\'s resource on a day with capacity and the day\'s '
         'bookings never exceed the capacity; the oracle c03_b is proved equivalent to that statement and is evaluated on what '
